@@ -159,7 +159,7 @@ def cross_entry(prop, tier, seed, count, profiles, res):
     """A sample of the property's own cases through the two other entry points (the command
     line and the Python module): the language must mean the same at every boundary."""
     profile = profiles[0]
-    n = 150 if tier == "quick" else 1500
+    n = 300 if tier == "quick" else 3000
     exe, msg = D.step_harness_build(profile)
     if not exe:
         res["errors"].append(f"harness build failed ({profile}): {msg}")
@@ -246,6 +246,6 @@ def es_oracle(prop, tier, seed, count, profiles, res):
 ES_ORACLE = {"C07", "C08", "C09", "C10", "C16"}
 
 # properties of the rule language whose cases are also sampled through the CLI and Python
-CROSS_ENTRY = {"C%02d" % i for i in range(1, 17)}
+CROSS_ENTRY = {"C%02d" % i for i in range(1, 18)}
 
 RUNNERS = {"C18": run_c18, "C19": run_c19}
